@@ -51,6 +51,8 @@ pub struct Env<'a> {
     /// Remaining executed-op budget shared by parent and children; `OverBudget` when exhausted.
     pub steps_left: Cell<u64>,
     pub breadth_cap: i64,
+    /// Number of times the cost function was consulted (parent and children, including the attempt that ran out of gas).
+    pub cost_calls: Cell<u64>,
 }
 
 #[derive(Clone, Debug, PartialEq, Eq)]
@@ -292,6 +294,7 @@ impl<'a> Machine<'a> {
             return Event::OverBudget;
         }
         self.env.steps_left.set(self.env.steps_left.get() - 1);
+        self.env.cost_calls.set(self.env.cost_calls.get() + 1);
         let c = (self.env.cost)(&op) as u128;
         if self.gas + c > self.limit || self.gas + c > u64::MAX as u128 {
             return Event::Failed {
@@ -945,6 +948,7 @@ pub fn run_simple(
         cost: &cost,
         steps_left: Cell::new(budget),
         breadth_cap,
+        cost_calls: Cell::new(0),
     };
     let mut m = Machine::new(prog, st, &env, u64::MAX);
     let r = m.run();
